@@ -276,6 +276,15 @@ def run_check(pid, tier, seed, replay=None):
         model_ok = vo_exists("Inst.vo") and not any(f == "theories/Inst.v" or "/Gen/" in f for f, _ in failed) and ok_t
         spec_ok = all(vo_exists(v) for v in getattr(mod, "SPEC_VO", ["DocSem.vo"]))
         try:
+            import resource
+            # an implementation that loops while allocating must fail with MemoryError inside the check, not get the check killed
+            lim = 24 << 30
+            soft, hard = resource.getrlimit(resource.RLIMIT_AS)
+            if hard == resource.RLIM_INFINITY or hard > lim:
+                resource.setrlimit(resource.RLIMIT_AS, (lim, hard))
+        except Exception:
+            pass
+        try:
             result = mod.run(tier=tier, seed=seed, model_ok=model_ok, spec_ok=spec_ok, replay=replay)
         except Exception:
             import traceback
